@@ -4,7 +4,8 @@ C03 - Jacobian, gradient and higher derivative functions are the true derivative
 Lean: Expr.diff is the true derivative (hasDerivAt_diff), the derivative objects are built with it in the
 layouts proved in Props/C03.lean.  Tie: sympy's diff / Matrix.jacobian are translation-validated on every
 generated model against the driver's expressions (symbolic, exact points) and the compiled evaluators are
-compared numerically.  Direct oracle (no Lean, no sympy): 50-digit central finite differences of the
+compared numerically (jacobian, grad, diff_jacobian, grad_jacobian, grad_grad - row i*nP+j, column k = d2f_i/dtheta_j dtheta_k -,
+transitionJacobian/Mean/Var).  Direct oracle (no Lean, no sympy): 50-digit central finite differences of the
 harness interpreter's own right-hand side / rate vector.
 """
 import json
@@ -23,7 +24,8 @@ LEAN = {"module": "Pygom.Props.C03",
                      "Pygom.C03.diff_jacobian_is_second_derivative", "Pygom.C03.grad_jacobian_is_mixed_derivative",
                      "Pygom.C03.transition_jacobian_def", "Pygom.C03.transition_mean_def", "Pygom.C03.transition_var_def",
                      "Pygom.C03.jacobian_entry", "Pygom.C03.grad_entry", "Pygom.C03.diffJacobian_entry",
-                     "Pygom.C03.gradJacobian_entry", "Pygom.C03.defined_odeEqnR"],
+                     "Pygom.C03.gradJacobian_entry", "Pygom.C03.defined_odeEqnR",
+                     "Pygom.C03.gradGrad_entry", "Pygom.C03.grad_grad_is_second_derivative"],
         "extra_modules": ["Pygom.Lemmas.Deriv"]}
 BUDGET = {"quick": {"models": 120}, "thorough": {"models": 2500}}
 RULE = ("random model definitions as in C01 (events routed through the event= keyword so that event order is the declared order); "
@@ -90,8 +92,12 @@ def run_case(case):
     nS, nP, nE = len(states), len(params), len(lr["rates"])
     tags += ["nS=%d" % nS, "nP=%d" % nP, "nE=%d" % nE, "square" if nS == nP else "asymmetric"]
     for k in set(meta["kinds"]): tags.append("rate:" + k)
+    if not hasattr(model, "get_grad_grad_eqn") or not hasattr(model, "grad_grad"):
+        # the modelled source has the evaluator (Model.gradGradEqn, since the repair of C20-hessian-mixed-terms)
+        mism.append({"what": "evaluator missing: grad_grad", "detail": "the model has no get_grad_grad_eqn / grad_grad"})
+        return {"nontrivial": False, "mismatches": mism, "violations": viol, "tags": tags + ["evaluator-missing:grad_grad"]}
     try:
-        J_s = model.get_jacobian_eqn(); G_s = model.get_grad_eqn()
+        J_s = model.get_jacobian_eqn(); G_s = model.get_grad_eqn(); GG_s = model.get_grad_grad_eqn()
         DJ_s = model.get_diff_jacobian_eqn(); GJ_s = model.get_grad_jacobian_eqn()
         TJ_s = model.get_TransitionJacobian(); TM_s = model.get_TransitionMean(); TV_s = model.get_TransitionVar()
     except Exception as exc:
@@ -100,13 +106,14 @@ def run_case(case):
         return {"nontrivial": False, "mismatches": mism, "violations": viol, "tags": tags}
     flat = lambda M: [M[i, j] for i in range(M.rows) for j in range(M.cols)]
     lflat = lambda L: [e for row in L for e in row]
-    nzJ = nzG = False
+    nzJ = nzG = nzGG = False
     for pt in case["points"]:
         env = {k: Fraction(v) for k, v in pt.items()}
         # symbolic: sympy's derivatives against the verified differentiator
         for name, S, L in (("get_jacobian_eqn", flat(J_s), lflat(lr["jac"])), ("get_grad_eqn", flat(G_s), lflat(lr["grad"])),
                            ("get_diff_jacobian_eqn", flat(DJ_s), lflat(lr["djac"])),
                            ("get_grad_jacobian_eqn", flat(GJ_s), lflat(lr["gjac"])),
+                           ("get_grad_grad_eqn", flat(GG_s), lflat(lr["ggrad"])),
                            ("get_TransitionJacobian", flat(TJ_s), lflat(lr["tjac"])),
                            ("get_TransitionMean", list(TM_s), lr["tmean"]), ("get_TransitionVar", list(TV_s), lr["tvar"])):
             sym_vs_lean(S, L, env, name, mism, tags)
@@ -117,6 +124,11 @@ def run_case(case):
             G_n = np.asarray(model.grad(x, t), float).reshape(nS, nP)
             DJ_n = np.asarray(model.diff_jacobian(x, t), float).reshape(nS * nS, nS)
             GJ_n = np.asarray(model.grad_jacobian(x, t), float).reshape(nS * nP, nS)
+            GG_n = np.asarray(model.grad_grad(x, t), float)
+            if GG_n.shape != (nS * nP, nP):
+                viol.append({"what": "grad_grad(x,t) has shape %s, expected %s" % (GG_n.shape, (nS * nP, nP)),
+                             "signature": "grad_grad:shape" + (":nS=1" if nS == 1 else "") + (":nP=1" if nP == 1 else ""), "detail": json.dumps(pt)})
+                break
             TJ_n = np.asarray(model.transitionJacobian(x, t), float).reshape(nE, nE)
             TM_n = np.asarray(model.transitionMean(x, t), float).ravel()
             TV_n = np.asarray(model.transitionVar(x, t), float).ravel()
@@ -128,13 +140,19 @@ def run_case(case):
             # model (Lean expressions, harness interpreter)
             Lv = lambda L: [[float(E.ev(e, env)) for e in row] for row in L]
             J_l, G_l, DJ_l, GJ_l, TJ_l = Lv(lr["jac"]), Lv(lr["grad"]), Lv(lr["djac"]), Lv(lr["gjac"]), Lv(lr["tjac"])
+            GG_l = Lv(lr["ggrad"])
             TM_l = [float(E.ev(e, env)) for e in lr["tmean"]]; TV_l = [float(E.ev(e, env)) for e in lr["tvar"]]
             # oracle: finite differences of the harness's own right-hand side
             fo = lambda e_: f_oracle(meta, spec, e_)[0]
             ao = lambda e_: f_oracle(meta, spec, e_)[2]
             J_o = np.array([[float(v) for v in d1(fo, env, s)] for s in states]).T            # [i][j] = d f_i / d x_j
             G_o = np.array([[float(v) for v in d1(fo, env, p)] for p in params]).T.reshape(nS, nP)
-            DJ_o = np.zeros((nS * nS, nS)); GJ_o = np.zeros((nS * nP, nS))
+            DJ_o = np.zeros((nS * nS, nS)); GJ_o = np.zeros((nS * nP, nS)); GG_o = np.zeros((nS * nP, nP))
+            for j, pj in enumerate(params):
+                for k, pk in enumerate(params):
+                    dd = d2(fo, env, pj, pk)
+                    for i in range(nS):
+                        GG_o[i * nP + j, k] = float(dd[i])
             for i, si in enumerate(states):
                 for j, sj in enumerate(states):
                     dd = d2(fo, env, si, sj)
@@ -155,12 +173,14 @@ def run_case(case):
             tags.append("undefined_point")
             continue
         nzJ = nzJ or bool(np.any(np.abs(J_o) > 1e-9)); nzG = nzG or bool(np.any(np.abs(G_o) > 1e-9))
+        nzGG = nzGG or bool(np.any(np.abs(GG_o) > 1e-9))
         for name, N, L in (("jacobian", J_n, J_l), ("grad", G_n, G_l), ("diff_jacobian", DJ_n, DJ_l), ("grad_jacobian", GJ_n, GJ_l),
+                           ("grad_grad", GG_n, GG_l),
                            ("transitionJacobian", TJ_n, TJ_l), ("transitionMean", TM_n, TM_l), ("transitionVar", TV_n, TV_l)):
             if not mat_close(N, np.asarray(L, float).reshape(np.asarray(N).shape), rel=1e-9, abs_=1e-10):
                 mism.append({"what": name + "(x,t)", "detail": "python %s lean %s at %s" % (np.asarray(N).tolist(), L, pt)})
         for name, N, O, tol in (("jacobian", J_n, J_o, 1e-7), ("grad", G_n, G_o, 1e-7), ("diff_jacobian", DJ_n, DJ_o, 1e-6),
-                                ("grad_jacobian", GJ_n, GJ_o, 1e-6), ("transitionJacobian", TJ_n, TJ_o, 1e-7),
+                                ("grad_jacobian", GJ_n, GJ_o, 1e-6), ("grad_grad", GG_n, GG_o, 1e-6), ("transitionJacobian", TJ_n, TJ_o, 1e-7),
                                 ("transitionMean", TM_n, TM_o, 1e-7), ("transitionVar", TV_n, TV_o, 1e-7)):
             if not mat_close(N, O, rel=tol, abs_=tol):
                 viol.append({"what": "%s(x,t) is not the derivative / definition (finite-difference oracle)" % name,
@@ -168,5 +188,7 @@ def run_case(case):
                              "detail": "got %s expected %s at %s" % (np.asarray(N).tolist(), np.asarray(O).tolist(), pt)})
         if mism or viol:
             break
+    if nzGG:
+        tags.append("grad_grad:non-zero")
     return {"nontrivial": bool(nzJ and nzG), "mismatches": mism, "violations": viol, "tags": tags,
             "sample": {"spec": spec, "point": case["points"][0]}}
